@@ -469,7 +469,9 @@ func (l *commitLog) HighWatermark() int64 {
 
 // NewLeaderEpoch indicates the log is entering a new leader epoch.
 func (l *commitLog) NewLeaderEpoch(epoch uint64) error {
-	return l.leaderEpochCache.Assign(epoch, l.NewestOffset())
+	// Record the first offset of the new epoch, like epochs learned from
+	// replicated messages and from compaction do.
+	return l.leaderEpochCache.Assign(epoch, l.NewestOffset()+1)
 }
 
 // LastOffsetForLeaderEpoch returns the start offset of the first leader epoch
